@@ -15,7 +15,7 @@ from vf import pool_engine as pe
 
 def text_for(case, w, g, attempt):
     """Unique single-line text per (writer, id, attempt); decorated with hostile but line-break-free characters."""
-    deco = case.get("deco", ["", " ", "ž", "日本", "😀", "\t", ",;\"'\\", "  lead", "trail  ", "\x00", " ", "\x0b", "\x85", "\u2028", "\x1c", "\x0c"])      # the last five: line boundaries for str.splitlines(), not for a file
+    deco = case.get("deco", ["", " ", "ž", "日本", "😀", "\t", ",;\"'\\", "  lead", "trail  ", "\x00", " ", "\x0b", "\x85", "\u2028", "\x1c", "\x0c", "C:\\new\\readme", "\\n", "a\\rb\\\\"])      # the last five: line boundaries for str.splitlines(), not for a file
     d = deco[(w * 7 + g * 3 + attempt) % len(deco)]
     return f"{d}<w{w}|g{g}|a{attempt}>{d}"
 
@@ -167,8 +167,15 @@ def drive_storage(case, sh, state):
         procs.append(("r", ctx.Process(target=_reader, args=(st, universe, sh, ri, start, stop, case.get("max_reads", 300),
                                                               case.get("seed", 0) * 31 + ri))))
     state["phase"] = "running"
-    for _, p in procs:
-        p.start()
+    if case.get("sequential_writers"):
+        # short-lived writers one after the other (no more than a few processes alive at a time)
+        start.set()
+        for _, p in procs:
+            p.start()
+            p.join()
+    else:
+        for _, p in procs:
+            p.start()
     raw = []
     for ri in range(case.get("raw_fork_readers", 0)):
         # a reader created with a plain os.fork() (pre-fork server style), not through multiprocessing
